@@ -185,6 +185,21 @@ func (cs *contentServer) handle(rw http.ResponseWriter, rq *http.Request) {
 			f.Flush()
 		}
 		_, _ = rw.Write(content[half:])
+	case "closefull1", "closehalf1":
+		// HTTP/1.0-style body delimited only by the end of the connection (no Content-Length, not
+		// chunked): complete, or cut off after half. The client cannot tell the two apart from the
+		// framing; a download path that accepts such a body as complete publishes a fragment.
+		body := content
+		if behaviour == "closehalf1" {
+			body = content[:half]
+		}
+		if hj, ok := rw.(http.Hijacker); ok {
+			if c, _, err := hj.Hijack(); err == nil {
+				_, _ = c.Write([]byte("HTTP/1.0 200 OK\r\nContent-Type: application/octet-stream\r\nConnection: close\r\n\r\n"))
+				_, _ = c.Write(body)
+				_ = c.Close()
+			}
+		}
 	case "status1":
 		http.Error(rw, "try again", http.StatusServiceUnavailable)
 	default:
